@@ -163,4 +163,36 @@ theorem normAll_typed (sig : Sig) (w : Bool) : ∀ (ps : List SPat) (ty : Option
     · exact normAll_typed sig w ps ty q hq
 end
 
+
+/-! ### the decidable hypothesis checks are sound -/
+
+theorem sigOfTable_ge (defs : List Def) (t : Nat) (h : ¬ t < defs.length) : sigOfTable defs t = .prim := by
+  simp [sigOfTable, List.getD, List.getElem?_eq_none (Nat.le_of_not_lt h)]
+
+theorem cxOk_of_check (defs : List Def) (h : cxOkCheck defs = true) : CxOk (sigOfTable defs) (cxOf defs) := by
+  intro t cls vs hs
+  by_cases ht : t < defs.length
+  · simp only [cxOkCheck, List.all_eq_true, List.mem_range] at h
+    have := h t ht
+    simpa [hs] using this
+  · rw [sigOfTable_ge defs t ht] at hs; cases hs
+
+theorem nodup_of_nodupNatL : ∀ (l : List Nat), nodupNatL l = true → l.Nodup
+  | [], _ => List.nodup_nil
+  | x :: xs, h => by
+    simp only [nodupNatL, Bool.and_eq_true, Bool.not_eq_true'] at h
+    refine List.nodup_cons.mpr ⟨?_, nodup_of_nodupNatL xs h.2⟩
+    intro hm
+    have : xs.contains x = true := by simpa using hm
+    rw [h.1] at this; cases this
+
+theorem sigNodup_of_check (defs : List Def) (h : nodupCheck defs = true) : SigNodup (sigOfTable defs) := by
+  intro t cls vs hs
+  by_cases ht : t < defs.length
+  · simp only [nodupCheck, List.all_eq_true, List.mem_range] at h
+    have := h t ht
+    simp only [hs] at this
+    exact nodup_of_nodupNatL _ this
+  · rw [sigOfTable_ge defs t ht] at hs; cases hs
+
 end SamVerif.Useful
